@@ -8,7 +8,8 @@ from . import c02
 PROPERTY = "C09"
 TRACE_MODULE = "MastersTrace"
 TRACE_CFG = "MastersTrace.cfg"
-ACCEPTORS = {"_default": ("MastersTrace", "MastersTrace.cfg"), "vf": ("VFTrace", "VFTrace.cfg")}
+ACCEPTORS = {"_default": ("MastersTrace", "MastersTrace.cfg"), "vf": ("VFTrace", "VFTrace.cfg"),
+             "vfsplit": ("VFSplitTrace", "VFSplitTrace.cfg")}
 RULE = ("random families of 2-3 point-compatible masters (a random exact-domain master + perturbations: moved points, offsets, "
         "advances; cubic, quadratic and mixed curves; a component whose 2x2 differs in one master only; mixed glyphs; nested "
         "components) plus optionally a sparse layer master holding a subset of glyphs x {compileInterpolatableTTFs, "
@@ -22,7 +23,13 @@ TIE_PROB = float(os.environ.get("C09_TIE_PROB", "0.5"))
 
 
 def design_checks(tier):
-    return [dict(module="FiltersMC", cfg="FiltersMC_tt.cfg", workers=8, timeout=300)]
+    # VFSplit: which sources a designspace-v5 build compiles together (joint decisions for every variable font sharing a
+    # master) and where each variable font takes its info from; the two must-fail configurations are designs that look
+    # equivalent (compile per variable font / look the default up once per sub-space)
+    return [dict(module="FiltersMC", cfg="FiltersMC_tt.cfg", workers=8, timeout=300),
+            dict(module="VFSplit", cfg="VFSplit.cfg", workers=8, timeout=600),
+            dict(module="VFSplit", cfg="VFSplit_pervf.cfg", workers=4, timeout=300, expect_violation="JointDecisions"),
+            dict(module="VFSplit", cfg="VFSplit_hoist.cfg", workers=4, timeout=300, expect_violation="BaseIsOwnDefault")]
 
 
 def cases(tier, seed):
@@ -134,7 +141,77 @@ def cases(tier, seed):
     from . import c10
 
     out += c10.vfs_cases(random.Random(seed * 353868013 + 90009), 5 if tier == "quick" else 50, f"c09-{seed}")
+    out += _vfsplit_cases(random.Random(seed * 353868013 + 90010), 14 if tier == "quick" else 200, f"c09-{seed}")
     return out
+
+
+def _vfsplit_cases(rng, n, prefix):
+    """Small designspace-v5 documents for VFSplit.tla: a discrete axis (two interpolable sub-spaces) x three positions of a
+    continuous axis, 1-3 variable fonts with their own ranges and default positions, all or some of them requested."""
+    out = []
+    for k in range(n):
+        discs = [0, 1] if k % 3 else [0]
+        masters = []
+        for d in discs:
+            poss = [0] + [p for p in (1, 2) if rng.random() < 0.75]
+            masters += [[d, p] for p in poss]
+        vfs = []
+        for j in range(rng.randint(1, 3)):
+            d = rng.choice(discs)
+            lo = rng.choice([0, 0, 1])
+            hi = rng.choice([p for p in (1, 2, 2) if p >= lo])
+            if lo == hi:
+                lo = 0
+            dflt = rng.choice([p for p in range(lo, hi + 1)]) if k % 2 else lo
+            vfs.append({"name": f"VF{j}", "disc": d, "lo": lo, "hi": hi, "dflt": dflt})
+        req = [v["name"] for v in vfs if rng.random() < 0.7] if k % 4 == 3 else [v["name"] for v in vfs]
+        out.append({"cid": f"{prefix}-sp{k}", "vfsplit": True, "lib": rng.choice(["ufoLib2", "defcon"]), "masters": masters, "vfs": vfs,
+                    "req": req or [vfs[0]["name"]], "flavor": "tt" if k % 3 else "cff2"})
+    return out
+
+
+def _execute_vfsplit(case):
+    import ufo2ft
+    from ..absfont import PS
+
+    wght = {0: 400, 1: 550, 2: 700}
+    fam_masters = []
+    for k, (d, p) in enumerate(case["masters"]):
+        w = 100 + 20 * p + 7 * d
+        glyphs = {"A": {"cs": [[[0, 0, "line"], [w * PS, 0, "line"], [w * PS, 300 * PS, "line"], [0, 300 * PS, "line"]]], "comps": [],
+                        "anchors": [], "w": (w + 50) * PS, "h": 0, "u": [0x41]},
+                  "B": {"cs": [], "comps": [{"b": "A", "m": [64, 0, 0, 64], "d": [10 * p * PS, 0]}], "anchors": [], "w": (w + 60) * PS, "h": 0, "u": [0x42]}}
+        ufo = {"glyphs": glyphs, "order": ["A", "B"], "glyphNames": ["A", "B"],
+               "info": {"unitsPerEm": 1000, "ascender": 800, "descender": -200, "familyName": "Split", "styleName": f"D{d}P{p}",
+                        "openTypeOS2VendorID": f"M{k:03d}"}}
+        fam_masters.append({"loc": {"Weight": wght[p], "Italic": d}, "ufo": ufo, "name": f"m{k}"})
+    family = {"axes": [{"name": "Weight", "tag": "wght", "min": 400, "default": 400, "max": 700},
+                       {"name": "Italic", "tag": "ital", "values": [0, 1], "default": 0}],
+              "masters": fam_masters,
+              "variableFonts": [{"name": v["name"], "subsets": {"Weight": {"min": wght[v["lo"]], "max": wght[v["hi"]], "default": wght[v["dflt"]]},
+                                                               "Italic": {"value": v["disc"]}}} for v in case["vfs"]]}
+    ds = dsbuild.build_designspace(family, case["lib"])
+    ids = {id(s.font): s.name for s in ds.sources}
+    rec = {"tid": case["cid"], "_acc": "vfsplit", "masters": [{"name": f"m{k}", "disc": d, "pos": p} for k, (d, p) in enumerate(case["masters"])],
+           "vfs": case["vfs"], "req": case["req"], "calls": [], "bases": [], "err": "", "_sig": [case["cid"]]}
+    fn = ufo2ft.compileVariableTTFs if case["flavor"] == "tt" else ufo2ft.compileVariableCFF2s
+    kw = {"useProductionNames": False}
+    if len(case["req"]) < len(case["vfs"]):
+        kw["variableFontNames"] = list(case["req"])
+    with tracer.tracing([s.font for s in ds.sources], designspace=ds, snap=False, glyphsets=False) as tr:
+        try:
+            outs = fn(ds, **kw)
+        except Exception as e:  # noqa
+            outs = {}
+            rec["err"] = type(e).__name__
+            rec["_msg"] = str(e)[:200]
+    for e in tr.events:
+        if e["ev"] == "IPreStart":
+            rec["calls"].append([ids.get(i, "?") for i in e.get("fontIds", [])])
+    vend = {f"M{k:03d}": f"m{k}" for k in range(len(case["masters"]))}
+    for name, f in sorted(outs.items()):
+        rec["bases"].append([name, vend.get(f["OS/2"].achVendID, f["OS/2"].achVendID)])
+    return [rec]
 
 
 def _struct_tt(f):
@@ -184,6 +261,8 @@ def execute(case):
         from . import c10
 
         return c10.execute_vfs(case)
+    if case.get("vfsplit"):
+        return _execute_vfsplit(case)
     lib = case["lib"]
     nm = len(case["masters"])
     locs = [0, 8] if nm == 2 else [0, 4, 8]
@@ -248,6 +327,8 @@ def execute(case):
 
 
 def nontrivial(rec):
+    if rec.get("_acc") == "vfsplit":
+        return len(rec["vfs"]) > 1
     if rec.get("_acc") == "vf":
         return rec.get("_k", 0) > 0
     return any(g["comps"] for gs in rec["src"] for g in gs.values())
